@@ -875,9 +875,23 @@ def flw10(ctx):
                 if isinstance(c, dict) and c.get("e") == "binary" and c.get("op") == op:
                     return _split(c["a"], op) + _split(c["b"], op)
                 return [c]
+            lets = {}
+            for lt in hirq.walk(froot):
+                if lt["e"] == "let" and lt.get("init") is not None and lt["pat"].get("p") == "bind" and "hid" in lt["pat"]:
+                    lets[lt["pat"]["hid"]] = lt["init"]
+
+            def _norm(c, neg, depth=0):
+                """look through `!` and through a named boolean (`let is_lone_boundary = ..; if !is_lone_boundary { return }`)"""
+                c = hirq.strip(c)
+                while isinstance(c, dict) and c.get("e") == "unary" and c.get("op") == "Not":
+                    c, neg = hirq.strip(c["a"]), not neg
+                if isinstance(c, dict) and c.get("e") == "path" and c.get("hid") in lets and depth < 3:
+                    return _norm(lets[c["hid"]], neg, depth + 1)
+                return c, neg
             # the test must hold on every way into the fallback: each alternative of an `||` has to make it; for an early
             # exit `if A && B { return }` the fallback is reached under `!A || !B`, so there each conjunct has to
-            tested = any(all(_mentions(d) for d in _split(c, "And" if id(c) in negated else "Or")) for c in conds)
+            normed = [_norm(c, id(c) in negated) for c in conds]
+            tested = any(all(_mentions(d) for d in _split(c, "And" if neg else "Or")) for c, neg in normed)
             r.inst("%s: the end-of-word insertion point is returned only under a test of how much of the context there is / was matched" % fname, fn_loc(fb, node["ln"]), "ok" if tested else "report")
             if not tested:
                 r.report("FLW-10|%s|fallback#%d" % (fname, m - 1), fn_loc(fb, node["ln"]), fb.path,
@@ -896,6 +910,16 @@ def flw10(ctx):
                             kinds |= {(q.get("path") or "") for q in hirq.walk_pats(arm["pat"]) if (q.get("path") or "").startswith("asca::parser::ParseElement::")}
                 child = x
                 x = fpar.get(id(x))
+            # `matches!(states.first().unwrap().kind, WordBound | SyllBound)` inside a (named) condition that must hold here
+            for c, neg in normed:
+                if not neg:
+                    # a condition that holds here: every conjunct of it does
+                    for d in _split(c, "And"):
+                        for mt in hirq.walk(d):
+                            if mt["e"] == "match" and (mt.get("sty") or "").lstrip("&").endswith("asca::parser::ParseElement"):
+                                for arm in mt["arms"]:
+                                    if hirq.strip(arm["body"]).get("lit") is True:
+                                        kinds |= {(q.get("path") or "") for q in hirq.walk_pats(arm["pat"]) if (q.get("path") or "").startswith("asca::parser::ParseElement::")}
             extra = sorted(k.rsplit("::", 1)[-1] for k in kinds if k.rsplit("::", 1)[-1] not in ("WordBound", "SyllBound"))
             ok_k = bool(kinds) and not extra
             r.inst("%s: the end-of-word insertion point is returned only for a context element that is a boundary (%s)" % (fname, ", ".join(sorted(k.rsplit("::", 1)[-1] for k in kinds)) or "no kind test"),
